@@ -5,6 +5,7 @@
 //!
 //! Exit codes: 0 held (KNOWN-FINDING lines possible), 1 violation(s), 2 inconclusive.
 
+mod alloc;
 mod engine;
 mod gen;
 mod props;
@@ -19,6 +20,9 @@ mod footprint;
 mod exec;
 
 use engine::*;
+
+#[global_allocator]
+static GLOBAL: alloc::Counting = alloc::Counting;
 use serde_json::{json, Value};
 use std::collections::BTreeSet;
 use std::io::Write;
